@@ -24,14 +24,21 @@ def valloc():
     return out
 
 
-def norm_dump(txt):
+def _norm_section(txt, prefix):
     ids = {}
     for m in RE_ID.finditer(txt):
-        ids.setdefault(m.group(1), "ID%d" % len(ids))
+        ids.setdefault(m.group(1), "%sID%d" % (prefix, len(ids)))
     if not ids:
         return txt
     rx = re.compile(r'(?<![0-9a-zA-Z])(' + "|".join(re.escape(k) for k in sorted(ids, key=len, reverse=True)) + r')(?![0-9a-zA-Z])')
     return rx.sub(lambda m: ids[m.group(1)], txt)
+
+
+def norm_dump(txt):
+    """Rename element ids in order of first occurrence, separately for every <dump> (configuration) section: ids are
+    addresses, and a later configuration may reuse the addresses of an earlier one."""
+    parts = re.split(r'(?=<dump )', txt)
+    return "".join(_norm_section(p, "c%d." % i) for i, p in enumerate(parts))
 
 
 def corpus(tier):
